@@ -170,6 +170,64 @@ def run(tier, seed, replay=None):
                     rep.fail("illtyped_intermediate:" + name, dict(family=fam, expr=repr(e)),
                              why + " in " + what)
         rep.extra["api_sweep_calls"] = sweep
+        # ---- front-end sweep (oracle only): parser and translator outputs, every diagram they
+        # build on the way is re-scanned by the constructor monitor
+        front = 0
+
+        def guarded(name, call, desc):
+            nonlocal front
+            before = len(monitor_hits)
+            try:
+                out = call()
+            except Exception as exc:
+                rep.count("front_error:%s:%s" % (name, err_class(exc)))
+                return
+            front += 1
+            rep.count("front:" + name)
+            for o in (out if isinstance(out, (list, tuple)) else [out]):
+                why = wf_failure(o) if hasattr(o, "layers") else None
+                if why:
+                    rep.fail("illtyped_result:" + name, dict(what=desc), why)
+            for why, what in monitor_hits[before:]:
+                rep.fail("illtyped_intermediate:" + name, dict(what=desc), why + " in " + what)
+        try:
+            import qgen
+            from props import c18 as g18
+            from discopy.quantum import zx as zxm, circuit as qcirc
+            from discopy.grammar import pregroup
+            from discopy import biclosed
+            n_front = 25 if tier == "quick" else 300
+            for k in range(n_front):
+                r = random.Random(rng.getrandbits(64))
+                n_in, layers = qgen.QGen(r, exact=True).circuit() if hasattr(qgen.QGen, "circuit") \
+                    else (0, [])
+                if layers:
+                    c = qgen.build_circuit(n_in, layers)
+                    desc = qgen.show_circuit(n_in, layers)
+                    guarded("circuit", lambda: [c, c.dagger(), c @ c, c.normal_form()
+                                                if len(c.boxes) < 6 else c], desc)
+                    guarded("circuit2zx", lambda: zxm.circuit2zx(c), desc)
+                    guarded("to_tk/from_tk", lambda: qcirc.Circuit.from_tk(c.to_tk()), desc)
+                words, target, _tags = g18.gen_sentence(r, r.randint(1, 4))
+                fam_r = fams["rigid"]
+                try:
+                    rw = [pregroup.Word(w["name"], fam_r.ty(w["cod"])) for w in words
+                          if not w.get("dom")]
+                    tgt = fam_r.ty(target)
+                    guarded("eager_parse", lambda: pregroup.eager_parse(*rw, target=tgt),
+                            repr((words, target))[:300])
+                except Exception:
+                    pass
+                for kind in ("fa", "ba", "fc", "bc", "fx", "bx"):
+                    spec = g18.gen_rule(r, kind, r.randint(1, 3))
+                    try:
+                        rule = g18.real_rule(spec)
+                    except Exception:
+                        continue
+                    guarded("biclosed2rigid", lambda: biclosed.biclosed2rigid(rule), repr(spec)[:300])
+        except ImportError as exc:   # a generator module is missing: say so, do not fail
+            rep.count("front_generators_unavailable:" + str(exc)[:60])
+        rep.extra["front_end_calls"] = front
     finally:
         uninstall()
         drv.close()
